@@ -18,6 +18,7 @@ import contextlib
 import copy
 import io
 import itertools
+import re
 import json
 import logging
 
@@ -253,7 +254,7 @@ def gen_cases(rng, tier):
         cases.append({"kind": "norm", "via": "dict", "g": g})
     for _ in range(n_expand):
         g = g_formula(rng, rng.randint(1, 6), rng.randint(1, 10), rng.randint(1, 4))
-        cases.append({"kind": "expand", "g": g})
+        cases.append({"kind": "expand", "g": g, "stmt": "await"} if _ % 3 == 2 else {"kind": "expand", "g": g})
     for i in range(n_e2e):
         op = OPS[i % len(OPS)]
         n_atoms = rng.randint(1, 5)
@@ -384,6 +385,20 @@ def parse_group(op, g, kinds, minimal):
     return src, r["flows"], grp
 
 
+def _member_name(m):
+    return m.get("name") if isinstance(m, dict) else getattr(m, "name", None)
+
+
+def _start_args(sp):
+    """(flow index, instance uid variable) of the StartFlow / FlowStarted spec that `start f<i>` expands to"""
+    a = sp.arguments or {}
+    if set(a) != {"flow_id", "flow_instance_uid"}:
+        return None
+    m1 = re.fullmatch(r"'f(\d+)'", str(a["flow_id"]))
+    m2 = re.fullmatch(r"'\{\$(_instance_uid_\w+)\}'", str(a["flow_instance_uid"]))
+    return (int(m1.group(1)), m2.group(1)) if m1 and m2 else None
+
+
 def prims_to_json(elements):
     """expanded element list -> canonical primitive list (uuid-bearing names renamed by first appearance)"""
     A = _M["ast"]
@@ -400,11 +415,32 @@ def prims_to_json(elements):
     for e in elements:
         t = type(e).__name__
         if isinstance(e, A.SpecOp):
-            j = spec_to_json(e.spec)
+            sp = e.spec
+            j = spec_to_json(sp)
+            started = _start_args(sp) if isinstance(sp, A.Spec) else None
             if e.op == "match" and "a" in j:
                 out.append(["match", j["a"]])
+            elif e.op == "send" and started and sp.name == "StartFlow" and sp.ref is None:
+                out.append(["sendStart", started[0], nm(started[1])])
+            elif e.op == "match" and started and sp.name == "FlowStarted" and e.info.get("internal") is True and isinstance(sp.ref, dict):
+                out.append(["matchStarted", started[0], nm(started[1]), nm(sp.ref["elements"][0]["elements"][0])])
+            elif (e.op == "match" and isinstance(sp, A.Spec) and sp.spec_type == A.SpecType.REFERENCE and sp.var_name and not sp.arguments
+                  and sp.ref is None and e.return_var_name is None and isinstance(sp.members, list) and len(sp.members) == 1
+                  and _member_name(sp.members[0]) == "Finished"):
+                out.append(["matchFin", nm(sp.var_name)])
             else:
                 out.append(["other", f"{e.op}:{json.dumps(j)[:40]}"])
+        elif t == "Assignment":
+            m1 = re.fullmatch(r"'\(f(\d+)\)\{uid\(\)\}'", e.expression or "")
+            m2 = re.fullmatch(r"\$(_flow_event_ref_\w+)\.flow", e.expression or "")
+            if m1 and e.key.startswith("_instance_uid_"):
+                out.append(["assignUid", nm(e.key), int(m1.group(1))])
+            elif m2 and e.key.startswith("_ref_"):
+                out.append(["assignRef", nm(e.key), nm(m2.group(1))])
+            else:
+                out.append(["other", "assign"])
+        elif t in ("BeginScope", "EndScope"):
+            out.append(["beginScope" if t == "BeginScope" else "endScope", nm(e.name)])
         elif t == "Goto":
             out.append(["goto", nm(e.label)] if e.expression == "True" else ["other", "goto-if"])
         elif t == "ForkHead":
@@ -443,6 +479,18 @@ def canon_prims(prims):
         elif t == "fork":
             u = nm(p[1])
             out.append([t, u, [nm(l) for l in p[2]]])
+        elif t in ("matchFin", "beginScope", "endScope"):
+            out.append([t, nm(p[1])])
+        elif t == "assignUid":
+            out.append([t, nm(p[1]), p[2]])
+        elif t == "sendStart":
+            out.append([t, p[1], nm(p[2])])
+        elif t == "matchStarted":
+            v = nm(p[2])
+            out.append([t, p[1], v, nm(p[3])])
+        elif t == "assignRef":
+            r = nm(p[1])
+            out.append([t, r, nm(p[2])])
         else:
             out.append(list(p))
     return out
@@ -486,9 +534,11 @@ def run_expand(case):
     A = _M["ast"]
     obs = {}
     try:
-        grp = json_to_spec(g) if not renderable(g) else parse_group("match", g, kinds_for("match"), False)[2]
+        stmt = case.get("stmt", "match")
+        kind = "ev" if stmt == "match" else "flow"
+        grp = json_to_spec(g, kind) if not renderable(g) else parse_group(stmt, g, kinds_for(stmt), False)[2]
         obs["g_seen"] = spec_to_json(grp)
-        els = _M["ex"].expand_elements([A.SpecOp(op="match", spec=grp)], {})
+        els = _M["ex"].expand_elements([A.SpecOp(op=stmt, spec=grp)], {})
         obs["prims"] = prims_to_json(els)
     except Exception as e:  # noqa
         obs["exc"] = f"{type(e).__name__}: {e}"[:200]
@@ -570,7 +620,7 @@ def model_requests(case, obs):
     if kind == "norm":
         return [{"m": "C07.normalize", "g": obs["g_seen"]}]
     if kind == "expand":
-        return [{"m": "C07.expand", "g": obs["g_seen"], "prims": obs.get("prims", [])}]
+        return [{"m": "C07.expandAwait" if case.get("stmt") == "await" else "C07.expand", "g": obs["g_seen"], "prims": obs.get("prims", [])}]
     reqs = [{"m": "C07.markers", "g": obs["g_seen"], "seqs": [finish_view(s) for s in case["seqs"]]}]
     if case["op"] == "match" and "runs" in obs:
         # head-level machine with the tie-breaks the interpreter drew
@@ -768,6 +818,8 @@ def tags(case, obs):
         cl = _clauses_of_norm(obs.get("norm")) if "norm" in obs else None
         if cl is not None:
             t.append(f"clauses:{min(len(cl), 16)}")
+    if case["kind"] == "expand":
+        t.append("stmt:" + case.get("stmt", "match"))
     if case["kind"] == "expand" and "prims" in obs:
         t.append(f"prims:{len(obs['prims']) // 10 * 10}+")
     if case["kind"] == "e2e":
